@@ -599,7 +599,8 @@ impl Norm {
         // N2m: `for [(i,] v[)] in xs.iter_mut()[.enumerate()]`: `*v` stands for `xs[i]` (the only use the rule accepts)
         if let Src::IndexMut { base } = &it.src {
             if !is_simple(base) { return None; }
-            let enumerate = match it.adapters.as_slice() { [] => false, [Adapter::Enumerate] => true, _ => return None };
+            // `.skip(n)`: the first min(n, len) elements are not visited (std Iterator::skip)
+            let (enumerate, skip): (bool, Option<Expr>) = match it.adapters.as_slice() { [] => (false, None), [Adapter::Enumerate] => (true, None), [Adapter::Skip(n)] => (false, Some(n.clone())), _ => return None };
             let idx = self.fresh("i");
             let (ipat, vname): (Option<Pat>, Ident) = match (enumerate, pat) {
                 (false, Pat::Ident(pi)) => (None, pi.ident.clone()),
@@ -634,14 +635,16 @@ impl Norm {
                 // the container is mutated inside the loop: its length is read once, as the iterator does
                 let hi = self.fresh("hi");
                 pre.push(parse_quote!(let #hi = #base.len();));
-                pre.push(parse_quote!(for #idx in 0..#hi {
+                let lo: Expr = match &skip { Some(n) => { let l = self.fresh("lo"); pre.push(parse_quote!(let #l = if #n < #hi { #n } else { #hi };)); parse_quote!(#l) } None => parse_quote!(0) };
+                pre.push(parse_quote!(for #idx in #lo..#hi {
                     #(#bind)*
                     __vx_loop_body_here!();
                     #(#body)*
                 }));
                 return Some(pre);
             }
-            pre.push(parse_quote!(for #idx in 0..#base.len() {
+            let lo: Expr = match &skip { Some(n) => { let l = self.fresh("lo"); pre.push(parse_quote!(let #l = if #n < #base.len() { #n } else { #base.len() };)); parse_quote!(#l) } None => parse_quote!(0) };
+            pre.push(parse_quote!(for #idx in #lo..#base.len() {
                 #(#bind)*
                 __vx_loop_body_here!();
                 #(#body)*
@@ -1929,6 +1932,30 @@ impl<'a> VisitMut for Rewriter<'a> {
                         replacement = Some(parse_quote!(#r.vctx()));
                     }
                     _ => {}
+                }
+            }
+            Expr::Binary(b) if matches!(b.op, syn::BinOp::Eq(_) | syn::BinOp::Ne(_)) => {
+                // N21c: `E1[a..b] == E2[c..d]` / `!=` (comparison of two range-indexed places, std slice PartialEq: same length and
+                // element-wise equal) -> vslice_eq(vsub_any(&E1, a, b), vsub_any(&E2, c, d)); vsub_any goes through the unit's VAsSlice
+                // view of the base (slice, array, Vec, or a type whose Deref target is one of them), vslice_eq is defined for primitive
+                // element types only
+                fn range_place(e: &Expr) -> Option<Expr> {
+                    if let Expr::Index(ix) = strip_paren(e) {
+                        if let Expr::Range(rg) = strip_paren(&ix.index) {
+                            if matches!(rg.limits, syn::RangeLimits::HalfOpen(_)) {
+                                let base = &ix.expr;
+                                let rb = ref_of(base);
+                                let lo: Expr = rg.start.as_ref().map(|b| (**b).clone()).unwrap_or_else(|| parse_quote!(0));
+                                let hi: Expr = rg.end.as_ref().map(|b| (**b).clone()).unwrap_or_else(|| parse_quote!(vlen_any(#rb)));
+                                return Some(parse_quote!(vsub_any(#rb, #lo, #hi)));
+                            }
+                        }
+                    }
+                    None
+                }
+                if let (Some(l), Some(r)) = (range_place(&b.left), range_place(&b.right)) {
+                    self.n.rule("N21", sp, "x[a..b] == y[c..d] -> vslice_eq(vsub_any(&x, a, b), vsub_any(&y, c, d))");
+                    replacement = Some(if matches!(b.op, syn::BinOp::Eq(_)) { parse_quote!(vslice_eq(#l, #r)) } else { parse_quote!(!vslice_eq(#l, #r)) });
                 }
             }
             Expr::Reference(rf) if rf.mutability.is_none() => {
